@@ -6,6 +6,7 @@
 // Serves C01 C02 C04 C05 C16 C17 (and carries probes for C10).
 #include "run.h"
 #include <cerrno>
+#include <csetjmp>
 
 namespace xs {
 
@@ -187,6 +188,12 @@ struct ConvCtx {
     int nconn = 0;
     uint64_t fresh_counter = 0;
     bool client_gone = false;    // variant runs: the (only) client's connection attempt failed
+    bool relay = false;          // family "relay": clients connect to xcmrelay (front), which connects to the server (back)
+    std::string front_addr, tp2;
+    int relay_exit_code = -1000; // exit code of the relay's main, once it has exited
+    int scripts_done = 0;
+    int clients_done = 0, stasks_spawned = 0, stasks_done = 0;
+    bool relay_live_violation = false;
 };
 static ConvCtx *CX = nullptr;
 
@@ -617,7 +624,7 @@ static void setup(const Plan &plan) {
     G->spawn("acceptor", [pl] {
         struct xcm_attr_map *sattrs = nullptr;
         if (CX->stream) { sattrs = xcm_attr_map_create(); xcm_attr_map_add_str(sattrs, "xcm.service", "bytestream"); }
-        XSock *srv = x_server(CX->addr, sattrs, pl->P("srv_nb") != 0, "srv");
+        XSock *srv = x_server(CX->addr, sattrs, pl->P("srv_nb") != 0 || CX->relay, "srv");
         if (sattrs) xcm_attr_map_destroy(sattrs);
         if (!srv->s) {
             G->violation("HARNESS.server", "xcm_server(%s) failed: %s", CX->addr.c_str(), strerror(errno));
@@ -626,7 +633,17 @@ static void setup(const Plan &plan) {
         }
         CX->server_ready = true;
         int accepted = 0;
-        while (accepted < CX->nconn && !G->stopping) {
+        int idle_rounds = 0;
+        while ((CX->relay ? !(CX->clients_done >= CX->nconn && idle_rounds >= 3) : accepted < CX->nconn) && !G->stopping) {
+            if (CX->relay) {
+                // how many connections reach the back end is the relay's business (a client may come and go before the
+                // relay has connected on): accept whatever arrives until every client is done and nothing is pending
+                x_await(srv, XCM_SO_ACCEPTABLE);
+                struct pollfd pf = {x_fd(srv), POLLIN, 0};
+                int prc = k::poll(&pf, 1, 10);
+                if (prc <= 0) { if (CX->clients_done >= CX->nconn) idle_rounds++; continue; }
+                idle_rounds = 0;
+            } else
             if (srv->nonblocking) {
                 x_await(srv, XCM_SO_ACCEPTABLE);
                 // C16: a server socket awaiting ACCEPTABLE is readable iff a connection is pending (read from the kernel at one instant)
@@ -653,6 +670,44 @@ static void setup(const Plan &plan) {
                 if (pl->P("variant")) accepted++;   // an injected fault may end the connection before it is accepted
                 continue;
             }
+            if (CX->relay) {
+                // the peer is the relay: the client introduces itself with a one-byte hello that the relay forwards
+                accepted++;
+                CX->stasks_spawned++;
+                XSock *cc = c;
+                G->spawn(strf("s?%d", accepted), [pl, cc] {
+                    XSock *c = cc;
+                    uint8_t hb[8];
+                    int ci = -1;
+                    for (int i = 0; i < 100000 && !G->stopping; i++) {
+                        int rc = x_receive(c, hb, 1);
+                        if (rc == 1) { ci = hb[0]; break; }
+                        if (rc == 0 || (rc < 0 && errno != EAGAIN && errno != EINTR)) break;
+                        if (c->nonblocking) { x_await(c, XCM_SO_RECEIVABLE); if (!x_wait(c)) break; }
+                    }
+                    XSock *cl = nullptr;
+                    for (auto &u : xsocks()) if (u->label == strf("c%d", ci)) cl = u.get();
+                    if (ci < 0 || !cl) {
+                        // the client's first byte never came: if the client has already closed this is the close-ordering defect
+                        // (the relay drops what it has not forwarded yet), otherwise a loss on a live connection
+                        bool some_client_closed = false;
+                        for (auto &u : xsocks()) if (u->label.size() >= 2 && u->label[0] == 'c' && u->closed) some_client_closed = true;
+                        if (!G->stopping) G->violation(some_client_closed ? "C20.lost_before_close" : "C20.hello_lost", "a relayed connection reached the server but the client's first byte never did%s", some_client_closed ? " (the client had sent it and closed)" : "");
+                        x_close(c); CX->stasks_done++; return;
+                    }
+                    c->label = strf("s%d", ci);
+                    c->led_to_app_msgs = c->led_to_app_bytes = 0; c->cnt_valid = false;
+                    x_pair(c, cl);
+                    if (cl->bytestream) { if (!cl->out_stream.empty()) cl->out_stream.erase(0, 1); } else if (!cl->out_fifo.empty()) cl->out_fifo.pop_front();
+                    bool want_nb = pl->P(strf("s%d_nb", ci)) != 0;
+                    Script *sc = make_script(*pl, T_SCONN0 + ci, c, pl->P(strf("s%d_spec", ci)) != 0, c->label);
+                    sc->sticky = pl->P(strf("s%d_sticky", ci)) != 0;
+                    if (c->nonblocking != want_nb) { if (x_set_blocking(c, !want_nb) < 0) sc->failed = true; }
+                    run_script(*sc);
+                    CX->stasks_done++;
+                });
+                continue;
+            }
             int ci = -1;
             if (c->peer) sscanf(c->peer->label.c_str(), "c%d", &ci);
             if (ci < 0 && CX->nconn == 1) {
@@ -673,6 +728,14 @@ static void setup(const Plan &plan) {
                 run_script(*sc);
             });
         }
+        if (CX->relay) {
+            block_until([] { return (CX->clients_done >= CX->nconn && CX->stasks_done >= CX->stasks_spawned) || CX->relay_exit_code != -1000; }, -1, "wait for the relayed conversations");
+            CX->scripts_done = 2 * CX->nconn;
+            if (CX->relay_exit_code == -1000 && !G->stopping) {
+                task_sleep(5 * MS);
+                sim_raise_signal(15 /* SIGTERM */);
+            }
+        }
         x_close(srv);
     }, 1, 0);
 
@@ -680,6 +743,7 @@ static void setup(const Plan &plan) {
         bool nb = plan.P(strf("c%d_nb", c)) != 0, spec = plan.P(strf("c%d_spec", c)) != 0;
         int netns = CX->tp == "utls_tls" ? 1 : 0;
         G->spawn(strf("c%d", c), [pl, c, nb, spec] {
+            struct Done { ~Done() { if (CX) CX->clients_done++; } } done_guard;   // however this task ends, the client is accounted for
             block_until([] { return CX->server_ready || CX->server_failed; }, -1, "wait for server");
             if (CX->server_failed || G->stopping) return;
             bool has_connect = false;
@@ -688,7 +752,13 @@ static void setup(const Plan &plan) {
             if (!has_connect) return;
             struct xcm_attr_map *cattrs = nullptr;
             if (CX->stream) { cattrs = xcm_attr_map_create(); xcm_attr_map_add_str(cattrs, "xcm.service", CX->fresh_counter % 2 ? "bytestream" : "any"); }
-            XSock *x = x_connect(CX->addr, cattrs, nb, strf("c%d", c));
+            XSock *x = x_connect(CX->relay ? CX->front_addr : CX->addr, cattrs, nb, strf("c%d", c));
+            // (the relay's front server appears a little after the back-end server: a refused attempt is simply repeated)
+            for (int tries = 0; CX->relay && !x->s && (errno == ECONNREFUSED || errno == ENOENT) && tries < 200 && !G->stopping; tries++) {
+                task_sleep(1 * MS);
+                x->label += "(early)";
+                x = x_connect(CX->front_addr, cattrs, nb, strf("c%d", c));
+            }
             disarm_faults();
             if (cattrs) xcm_attr_map_destroy(cattrs);
             if (!x->s) {
@@ -698,6 +768,16 @@ static void setup(const Plan &plan) {
                 return;
             }
             if (pl->P("cut_dir", -1) == 0) x->dying = true;
+            if (CX->relay) {
+                uint8_t hb = (uint8_t)c;
+                for (int i = 0; i < 100000 && !G->stopping; i++) {
+                    int rc = x_send(x, &hb, 1);
+                    if (rc >= 0) break;
+                    if (errno != EAGAIN && errno != EINTR) break;
+                    if (x->nonblocking) { x_await(x, XCM_SO_SENDABLE); if (!x_wait(x)) break; }
+                }
+                x->led_from_app_msgs = x->led_from_app_bytes = 0; x->cnt_valid = false; x->sent_ok = 0; x->stream_sent = 0; x->sent_lens.clear();
+            }
             Script *sc = make_script(*pl, T_CLIENT0 + c, x, spec, x->label);
             sc->sticky = pl->P(strf("c%d_sticky", c)) != 0;
             if (pl->P(strf("c%d_ff", c)) && x->nonblocking) { G->count("probe.finish_first"); if (!do_finish(*sc, true) && !G->stopping) sc->failed = true; }
@@ -968,8 +1048,106 @@ static void term_variants(const Plan &base, const Result &ref, std::vector<Plan>
     out = std::move(all);
 }
 
+// ------------------------------------------------------------------ family "relay" (C20): the real xcmrelay between the endpoints
+extern "C" int xcmrelay_main(int argc, char **argv);
+extern "C" { extern int optind; }
+static jmp_buf relay_exit_jmp;
+static bool relay_jmp_armed = false;
+static void relay_on_exit(int code) {
+    if (!relay_jmp_armed || !cur() || cur()->name != "relay") return;   // exit() from somewhere else: the generic trap reports it
+    CX->relay_exit_code = code;
+    longjmp(relay_exit_jmp, 1);
+}
+
+static void gen_relay(uint64_t seed, const std::string &prop, Plan &plan) {
+    GenP gp;
+    gp.family = "relay";
+    gp.salt = 0x2E1A;
+    gp.p_faults = 0.5;
+    gp.max_conn = 3;
+    gp.max_events = 10;
+    gp.p_stream = 0.3;
+    gen_with(seed, prop, plan, gp);
+    Rng r(mix64(seed, 0x2E1B));
+    bool stream = plan.p["stream"] != 0;
+    static const char *mt[] = {"ux", "uxf", "tcp", "tls"};
+    static const char *st[] = {"btcp", "btls"};
+    plan.sp["tp"] = stream ? st[r.below(2)] : mt[r.below(4)];     // clients -> relay
+    plan.sp["tp2"] = stream ? st[r.below(2)] : mt[r.below(4)];    // relay -> server
+    if (tls_bearing(plan.sp["tp"]) || tls_bearing(plan.sp["tp2"])) {
+        if (plan.p["tcp_buf"] < 4096) plan.p["tcp_buf"] = 4096 << r.below(5);
+        // byte-wise delivery of TLS records with millisecond gaps makes every hop spin on the partial record (DESIGN.md, observations)
+        // and the relayed volume burn the step budget: whole or halved segments only
+        if (plan.p["seg_policy"] >= 2 && plan.p["seg_policy"] != 5) plan.p["seg_policy"] = plan.p["seg_policy"] % 2;
+    }
+    // the traffic volume was sized for the client leg only: the other leg must not be slower than ~2 KiB per round trip
+    if (plan.p["tcp_buf"] < 2048) plan.p["tcp_buf"] = 2048 << r.below(4);
+    plan.p["counters"] = 0;
+    plan.p["ctl"] = 0;
+    plan.p["retry_policy"] = 0;   // endpoints retry a refused byte-stream send with the same bytes (the other policies only re-find KF-C02-1 on their own btls leg)
+    // the settle-point inspection presumes a direct connection (kernel idleness of one connection): not here
+    std::vector<Op> ops;
+    for (auto &op : plan.ops) if (op.kind != "settle" && op.kind != "setblk") ops.push_back(op);
+    plan.ops = ops;
+}
+
+static std::string relay_addr(const std::string &tp, bool front) {
+    int port = front ? 4800 : 4900;
+    if (tp == "ux") return front ? "ux:relay-front" : "ux:relay-back";
+    if (tp == "uxf") return front ? "uxf:/tmp/relay-front.sock" : "uxf:/tmp/relay-back.sock";
+    return strf("%s:127.0.0.1:%d", tp.c_str(), port);
+}
+
+static void setup_relay(const Plan &plan) {
+    setup(plan);
+    CX->relay = true;
+    CX->tp2 = plan.S("tp2", "tcp");
+    CX->front_addr = relay_addr(CX->tp, true);
+    CX->addr = relay_addr(CX->tp2, false);
+    on_sim_exit = relay_on_exit;
+    G->alias["C01.content"] = "C20.altered";
+    G->alias["C01.length"] = "C20.altered";
+    G->alias["C01.phantom"] = "C20.duplicated_or_invented";
+    G->alias["C01.lost"] = "C20.lost_before_close";
+    G->alias["C02.lost"] = "C20.lost_before_close";
+    G->alias["C06.lost_on_close"] = "C20.lost_before_close";
+    G->alias["C02.stream_content"] = "C20.altered";
+    G->alias["C04.lost_wakeup"] = "C20.stalled";
+    G->alias["C04.no_progress"] = "C20.stalled";
+    G->alias["C08.abort"] = "C20.relay_crashed";
+    G->spawn("relay", [] {
+        block_until([] { return CX->server_ready || CX->server_failed; }, -1, "wait for the back-end server");
+        if (CX->server_failed || G->stopping) return;
+        static char a0[] = "xcmrelay";
+        std::string f = CX->front_addr, b = CX->addr;
+        char *argv[4] = {a0, &f[0], &b[0], nullptr};
+        optind = 1;
+        relay_jmp_armed = true;
+        // everything the tool and the library under it create is "library-created" for the descriptor monitors
+        Task *me = cur();
+        me->api_depth++; me->api_name = "xcmrelay"; me->api_nonblocking = false; me->api_sock = nullptr;
+        if (setjmp(relay_exit_jmp) == 0) {
+            xcmrelay_main(3, argv);
+            CX->relay_exit_code = 0;   // (main returns only through exit())
+        }
+        relay_jmp_armed = false;
+        me->api_depth--; me->api_name = "";
+        // the relay must not leave while conversations are in progress
+        if (!(CX->clients_done >= CX->nconn && CX->stasks_done >= CX->stasks_spawned) && !G->stopping && !CX->relay_live_violation) {
+            CX->relay_live_violation = true;
+            G->violation("C20.relay_exited", "xcmrelay exited with code %d while endpoint conversations were still in progress (%d of %d clients done)", CX->relay_exit_code, CX->clients_done, CX->nconn);
+        } else if (CX->relay_exit_code != 0 && !G->stopping)
+            G->violation("C20.relay_exit_code", "xcmrelay exited with code %d after SIGTERM", CX->relay_exit_code);
+    }, 1, 0);
+}
+
+static void finalize_relay(const Plan &plan, EndReason r) {
+    finalize(plan, r);
+}
+
 static struct Reg {
     Reg() {
+        register_family(Family{"relay", gen_relay, setup_relay, finalize_relay, nullptr, nullptr});
         register_family(Family{"conv", gen, setup, finalize, nullptr, nullptr});
         register_family(Family{"term", gen_term, setup_term, finalize_term, nullptr, term_variants});
     }
